@@ -284,6 +284,11 @@ func Main(pkgs []Pkg) {
 			os.Exit(3)
 		}
 	}()
+	if err := refcodec.SelfTest(); err != nil {
+		w.res.HarnessErr = err.Error()
+		emit(w)
+		return
+	}
 	switch *prop {
 	case "C01":
 		w.c01(mine)
